@@ -40,6 +40,14 @@ def make_case(rng, i, tier):
         f = lambda w: w if common.num(w) <= 1 else "1"  # noqa
         desc = {**desc, "start": [[q, f(w)] for q, w in desc["start"]], "stop": [[q, f(w)] for q, w in desc["stop"]],
                 "arcs": [[a, b, c, f(w)] for a, b, c, w in desc["arcs"]]}
+    if R in ("Float", "Real") and rng.random() < 0.15:
+        # weights of both signs: an ε-cycle {cp, cq} with asymmetric weights entered at BOTH states with start weights
+        # that cancel (+w, -w); every single weight is non-zero and the path sum through the cycle is not
+        w = rng.choice(["1/2", "1/4"])
+        a0 = rng.choice(desc["syms"])
+        desc = {**desc, "start": desc["start"] + [["cp", w], ["cq", "-" + w]], "stop": desc["stop"] + [["cq", "1"]],
+                "arcs": desc["arcs"] + [["cp", "", "cq", "1/2"], ["cq", "", "cp", "1/4"]] + ([["cq", a0, "cq", "1/4"]] if rng.random() < 0.5 else [])}
+        shape += "+cancelling_entry"
     maxlen = 3 if tier == "quick" else 4
     xs = [s for s in gen.all_strings(desc["syms"], 2)]
     for _ in range(4):
